@@ -2,6 +2,10 @@
 # Offline build of the framework: regenerate coq/Gen from /repo, full .vo build of the Coq development.
 cd "$(dirname "$0")" || exit 2
 export PYTHONHASHSEED=0 PYTHONDONTWRITEBYTECODE=1
-/venv/bin/python -c 'from harness import translate; print(translate.regenerate())' || exit 1
-cd coq && coq_makefile -f _CoqProject -o Makefile >/dev/null && timeout 3000 make -j16 2>&1 | tail -5
-test -f Props/C10.vo
+/venv/bin/python -c '
+import sys
+from harness import translate, common
+print("translators:", translate.regenerate())
+rc, out = common.coq_make([])
+print(out[-1500:])
+sys.exit(rc)'
